@@ -717,3 +717,10 @@ m('c16-limit-tested-on-integer-zeros-only', ['C16'], 'limit-bounds-fill', [
 m('c16-limit-tested-after-halving', ['C16'], 'limit-bounds-fill', [
   ('src/impl_fmt.rs', "    if total_additional_zeros > FMT_MAX_INTEGER_PADDING {", "    if total_additional_zeros / 2 > FMT_MAX_INTEGER_PADDING {")],
   'limit compared with half the amount written')
+# ---- C04 / C16 move-then-clear
+m('c04-plain-clear-wipes-moved-digits', ['C04'], 'clear-stops-before-moved-digits', [
+  ('src/impl_fmt.rs', "            fill_slice(&mut digit_vec[..digit_count.min(leading_char_idx)], b'0');", "            fill_slice(&mut digit_vec[..digit_count], b'0');")],
+  'plain notation: the zero fill reaches into the digits just shifted right (0.125 -> 0.005)')
+m('c16-no-integer-clear-wipes-moved-digits', ['C16'], 'clear-stops-before-moved-digits', [
+  ('src/impl_fmt.rs', "fill_slice(&mut digits_ascii_be[..sig_digit_count.min(sig_digit_idx)], b'0');", "fill_slice(&mut digits_ascii_be[..sig_digit_count], b'0');")],
+  '{:.N} of a pure fraction: the zero fill overwrites moved significant digits')
